@@ -15,6 +15,8 @@
 -/
 import MocVerif.Lemmas.Codec
 import MocVerif.Lemmas.Cells
+import MocVerif.Lemmas.CodecMoc
+import MocVerif.Props.C05
 
 namespace Moc.Codec.C07
 open Moc Moc.Codec
@@ -89,6 +91,52 @@ theorem ascii_roundtrip (q : Qty) (w dmax : Nat) (items : List Item)
   have n1 := normalize_spec ((bucketed items 0 (dmax + 1)).map (rangeOfItem q w))
   have n2 := normalize_spec (items.map (rangeOfItem q w))
   exact Canon.ext n1.1 n2.1 (fun x => by rw [n1.2, n2.2]; exact mem_perm pm x)
+
+theorem ordCR_mem (q : Qty) (w d : Nat) : ∀ (cs : List CellRange) (lo hi : Nat), OrdCR q w d lo hi cs →
+    ∀ c ∈ cs, c.1 ≤ d ∧ c.2.1 < c.2.2 ∧ (rangeOfCellRange q w c).2 ≤ hi := by
+  intro cs
+  induction cs with
+  | nil => intro _ _ _ c hc; cases hc
+  | cons c0 t ih =>
+    intro lo hi h c hc
+    have hb := ordCR_lb q w d (c0 :: t) lo hi h c hc
+    obtain ⟨h1, h2, _, h4⟩ := h
+    cases hc with
+    | head => exact ⟨h1, h2, hb.2⟩
+    | tail _ hm => exact ih _ hi h4 c hm
+
+/-- **ASCII round trip, end to end (token level)**: for EVERY valid MOC `M` of depth `d` — any
+    quantity of dimension 1 or 2, any index width, empty and full-domain MOCs and unoccupied
+    deepest levels included — the reader applied to what the writer emits for the cell-range view of
+    `M` returns exactly `(d, M)`. -/
+theorem ascii_roundtrip_moc (q : Qty) (hq : q.dim = 1 ∨ q.dim = 2) (w d : Nat)
+    (hd : d ≤ q.maxDepth w) (hd255 : d ≤ 255) (l : List Rng) (hv : Valid q w d l) :
+    decodeToks q w (encodeToks d (itemsOf q w d l)) = .ok (d, l) := by
+  have hal := Moc.C05.aligned_of_valid q w d l hv
+  have oc := ordCells_cellsOf q hq w d hd (q.nCellsMax w) l 0 hv.1 hal hv.2.1 (Nat.zero_le _)
+  have ocr := ordCR_cellRangesOf q w d _ 0 _ oc
+  have hmap : (itemsOf q w d l).map (rangeOfItem q w)
+      = (cellRangesOf (cellsOf q w d l)).map (rangeOfCellRange q w) := by
+    unfold itemsOf
+    rw [List.map_map]
+    apply List.map_congr_left
+    intro c _
+    rfl
+  have hok : ∀ it ∈ itemsOf q w d l, ItemOk q w it ∧ it.d ≤ d := by
+    intro it hit
+    unfold itemsOf at hit
+    obtain ⟨c, hc, rfl⟩ := List.mem_map.1 hit
+    obtain ⟨m1, m2, m3⟩ := ordCR_mem q w d _ 0 _ ocr c hc
+    refine ⟨⟨by simp only []; omega, by simp only []; omega, m2, ?_⟩, m1⟩
+    exact le_nCells_of_shl_le q w c.1 c.2.2 (by omega) (by simpa [rangeOfCellRange] using m3)
+  have hdis : ((itemsOf q w d l).map (rangeOfItem q w)).Pairwise Disjoint := by
+    rw [hmap]; exact ordCR_pairwise q w d _ 0 _ ocr
+  rw [ascii_roundtrip q w d _ ⟨hd, hd255⟩ hok hdis]
+  refine congrArg (fun r => Except.ok (d, r)) ?_
+  have n := normalize_spec ((itemsOf q w d l).map (rangeOfItem q w))
+  refine Canon.ext n.1 hv.1 (fun x => ?_)
+  rw [n.2, hmap, mem_cellRangesOf]
+  exact Moc.C05.cells_cover q hq w d hd l hv x
 
 /-- The empty MOC keeps its depth: the writer emits the bare `dmax/` token. -/
 theorem ascii_roundtrip_empty (q : Qty) (w dmax : Nat) (hmax : dmax ≤ q.maxDepth w ∧ dmax ≤ 255) :
